@@ -540,6 +540,9 @@ pub(crate) use add_optional_bytes_length;
 
 pub static MAXIMUM_VARIABLE_LENGTH_INTEGER: usize = (1 << 28) - 1;
 
+/// The largest MQTT packet: first byte, four bytes of remaining length, and the largest remaining length itself.
+pub(crate) static MAXIMUM_PACKET_SIZE: u32 = (1 << 28) - 1 + 5;
+
 pub fn compute_user_properties_length(properties: &Option<Vec<UserProperty>>) -> usize {
     let mut total = 0;
     if let Some(props) = properties {
